@@ -91,8 +91,14 @@ pub fn instantiate_matrix(opts: &Opts, st: &mut Stats, thorough: bool) -> Vec<Hi
         (json!("0.01"), json!("ab")),
         (json!("-0.01"), json!("feea")),
         (json!(".5"), json!("feea")),
+        // blank but not empty: neither "no fee" nor a fee
+        (json!(" "), json!(" ")),
+        (json!("\t"), json!("")),
+        (json!(""), json!("  ")),
+        (json!(" 0.01"), json!("feea")),
+        (json!("0.01 "), json!("feea")),
     ];
-    let bid_forms: Vec<(Value, Value)> = vec![(Value::Null, Value::Null), (json!("0.02"), json!("feeb")), (json!("0.02"), Value::Null), (json!(""), json!("")), (Value::Null, json!("feeb")), (json!("abc"), json!("feeb"))];
+    let bid_forms: Vec<(Value, Value)> = vec![(Value::Null, Value::Null), (json!("0.02"), json!("feeb")), (json!("0.02"), Value::Null), (json!(""), json!("")), (Value::Null, json!("feeb")), (json!("abc"), json!("feeb")), (json!(" "), json!(" ")), (json!(""), json!(" ")), (json!("\n"), json!("\n"))];
     let defects: Vec<(&str, Value)> = vec![
         ("none", Value::Null),
         ("name", json!("")),
